@@ -75,6 +75,7 @@ COMPOUND = "autofit/mapper/prior/arithmetic/compound.py"
 MODEL_OBJECT = "autofit/mapper/model_object.py"
 LOG_GAUSSIAN = "autofit/mapper/prior/log_gaussian.py"
 DRAWER = "autofit/non_linear/search/mle/drawer/search.py"
+ABSTRACT_SEARCH = "autofit/non_linear/search/abstract_search.py"
 
 
 def _class(tree, name):
@@ -123,6 +124,18 @@ def _facts(repo):
     pops = any(isinstance(n, ast.Call) and T._dotted(n.func) == "kwargs.pop" and n.args
                and isinstance(n.args[0], ast.Constant) and n.args[0].value == "number_of_cores" for n in ast.walk(init))
     drawer_ok = not (passes and star) or pops
+    # NonLinearSearch.fit: the tag handed to the paths object is the search's tag, unconditionally
+    atree, _ = T.parse_file(repo, ABSTRACT_SEARCH)
+    fit = T.find_function(atree, "NonLinearSearch.fit")
+    tags = T.assigns(fit, "self.paths.unique_tag")
+    if len(tags) != 1:
+        raise T.TranslationError("NonLinearSearch.fit does not assign self.paths.unique_tag exactly once")
+    if T._dotted(tags[0].value) != "self.unique_tag":
+        raise T.TranslationError("NonLinearSearch.fit assigns self.paths.unique_tag something other than self.unique_tag: %s"
+                                 % ast.unparse(tags[0].value))
+    models = T.assigns(fit, "self.paths.model")
+    if len(models) != 1 or T._dotted(models[0].value) != "model":
+        raise T.TranslationError("NonLinearSearch.fit does not assign self.paths.model = model exactly once")
     return compound, modified, bool(restores), has_dict, drawer_ok
 
 
@@ -200,6 +213,8 @@ def regenerate(repo=None):
         "Definition drawer_json_readable : bool := %s." % ("true" if drawer_ok else "false"),
         "(* %s: the walk iterates a set / frozenset as sorted(value, key=str) *)" % IDENT,
         "Definition sets_sorted : bool := %s." % ("true" if sorts else "false"),
+        "(* %s:NonLinearSearch.fit: self.paths.unique_tag = self.unique_tag (anything else fails the translation) *)" % ABSTRACT_SEARCH,
+        "Definition fit_tag_from_search : bool := true.",
         "",
     ]
     text = "\n".join(lines)
@@ -273,6 +288,9 @@ SEARCH_FIELDS = {
 # variable called `right` (or a right operand called `left`) is routed through the property setter and silently
 # replaces the other operand -- a defect of arithmetic priors outside C07; only the harmless combination
 # (left operand `left`, right operand `right`) is exercised, in a dedicated case.
+# searches used only for fit histories (never drawn by Gen.search, never a perturbation target)
+HISTORY_ONLY = {"MockSearch": []}
+SEARCH_FIELDS_ALL = dict(SEARCH_FIELDS, **HISTORY_ONLY)
 VARNAMES = ["xx", "yy", "aa", "bb", "pp", "qq", "prior", "other", "lens", "mass_0", "source_1"]
 
 
@@ -775,7 +793,7 @@ def config_defaults():
 def effective_settings(s):
     """what the constructor leaves on the object: explicit keywords over configuration defaults; UltraNest resets
     nsteps to None when no step sampler is configured"""
-    st = {f: config_defaults().get(s["cls"], {}).get(f) for f, _ in SEARCH_FIELDS[s["cls"]]}
+    st = {f: config_defaults().get(s["cls"], {}).get(f) for f, _ in SEARCH_FIELDS_ALL[s["cls"]]}
     st.update(s["settings"])
     if s["cls"] == "UltraNest" and st.get("stepsampler_cls") is None:
         st["nsteps"] = None
@@ -784,7 +802,7 @@ def effective_settings(s):
 
 def search_term(s):
     s = dict(s, settings=effective_settings(s))
-    fields = SEARCH_FIELDS[s["cls"]]
+    fields = SEARCH_FIELDS_ALL[s["cls"]]
     return "(NSearch %s %s %s)" % (
         cstr(s["cls"]), clist([cstr(f) for f, _ in fields]),
         clist([cpair(cstr(f), setting_node(s["settings"][f])) for f, _ in fields]))
@@ -1409,6 +1427,9 @@ def gen_cases(ctx):
             cases.append({"kind": "pair", "how": "fit", "expect": "same", "a": a, "b": b, "labels": reload_labels(S, "fit")})
     for _ in range(3 if quick else 20):
         cases += special_pairs(rng, Gen(rng, clean=True))
+    # fit histories on one search object: many with the mock search (the real NonLinearSearch.fit, no sampling), some with real samplers
+    for k in range(24 if quick else 300):
+        cases.append(gen_history(rng, quick_search=(k % 8 != 0)))
     for _ in range(120 if quick else 2500):
         v = gen_value(rng)
         cases.append({"kind": "walk", "value": v, "labels": []})      # (sets used to carry the label of a finding, repaired in 9943127)
@@ -1429,6 +1450,70 @@ def gen_cases(ctx):
     return cases
 
 
+def gen_history(rng, quick_search):
+    """one search object, 3-5 real fits; before each fit the user changes / clears / sets / keeps search.unique_tag,
+    sometimes the model too; the paths object may arrive with a tag of its own"""
+    for _ in range(50):
+        gen = Gen(rng, clean=True, max_depth=1)
+        S = gen.fit()
+        if fit_eligible(dict(S, search={"cls": "LBFGS", "settings": {}})):
+            break
+    else:
+        gen = Gen(rng, clean=True)
+        gen.pool = []
+        S = {"model": {"t": "model", "cls": "A2", "attrs": [["a", gen.prior()], ["b", gen.prior()]], "extras": []}, "pool": gen.pool}
+    tags = ["d0", "d1", "dataset_2", "t.x"]
+    init = {"ctor_tag": rng.choice([None, "d0", "ctor"])}
+    if rng.random() < 0.35:
+        init["paths_tag"] = rng.choice(["old", "d0", None])
+    steps, cur, model, pool = [], init["ctor_tag"], S["model"], S["pool"]
+    for k in range(rng.randint(3, 5)):
+        r = rng.random()
+        if k == 0 and r < 0.5:
+            pass                                   # first fit with the tag given at construction
+        elif r < 0.45:
+            cur = rng.choice([t for t in tags if t != cur])        # changed
+        elif r < 0.65:
+            cur = None                             # cleared
+        elif r < 0.8 and cur is None:
+            cur = rng.choice(tags)                 # set
+        if rng.random() < 0.3:                    # another model as well
+            g2 = Gen(rng, clean=True)
+            g2.pool = []
+            model = {"t": "model", "cls": rng.choice(["A2", "C2"]), "attrs": [["a", g2.prior()], ["b", g2.const() if rng.random() < 0.5 else g2.prior()]], "extras": []}
+            pool = g2.pool
+        steps.append({"model": model, "pool": pool, "tag": cur})
+    cls = "MockSearch" if quick_search else rng.choice(["Drawer", "LBFGS"])
+    search = {"cls": cls, "settings": {"total_draws": rng.choice([2, 3])} if cls == "Drawer" else {}}
+    return {"kind": "history", "search": search, "init": init, "steps": steps, "labels": []}
+
+
+def history_oracle(c, r):
+    out = []
+    seen = {}
+    for k, (st, o) in enumerate(zip(c["steps"], r["steps"])):
+        if "raised" in o:
+            out.append(("fit %d of a history: the identifier raised %s" % (k, o["raised"]), False))
+            continue
+        if o["fresh"] != o["fresh_walk"]:
+            out.append(("fit %d: a fresh search's paths.identifier is not Identifier([search, model, tag])" % k, False))
+        if o["paths_identifier"] != o["fresh"]:
+            out.append(("fit %d of one search object (tag %r, tags before: %r, paths handed over with %r) has identifier %s, a fresh search "
+                        "with the same settings, model and tag gets %s" % (k, st.get("tag"), [s.get("tag") for s in c["steps"][:k]],
+                                                                        c.get("init", {}).get("paths_tag", "<own paths>"),
+                                                                        o["paths_identifier"], o["fresh"]), False))
+        if o["folder"] != o["paths_identifier"]:
+            out.append(("fit %d: the output folder is not named by the identifier" % k, False))
+        if st.get("tag") is not None and st["tag"] not in o["path_parts"]:
+            out.append(("fit %d: the output path %s does not contain the unique tag %r" % (k, o["path_parts"], st["tag"]), False))
+        key = _json.dumps([st["model"], st["pool"]], sort_keys=True)
+        for (key2, tag2), ident2 in seen.items():
+            if key2 == key and tag2 != st.get("tag") and ident2 == o["paths_identifier"]:
+                out.append(("fits %d and an earlier one differ only in their unique tag (%r / %r) and claim one identifier" % (k, st.get("tag"), tag2), False))
+        seen[(key, st.get("tag"))] = o["paths_identifier"]
+    return out[:1]
+
+
 def case_key(c):
     return {k: v for k, v in c.items() if k not in ("labels", "corpus")}
 
@@ -1443,6 +1528,9 @@ def is_nontrivial(c):
         return c["value"][0] in ("seq", "tup", "dict", "idict", "obj", "gridsearch", "prior", "dictsub", "set", "fset", "nparr")
     if k == "round":
         return True
+    if k == "history":
+        tags = [s.get("tag") for s in c["steps"]]
+        return len(set(tags)) >= 2
     return False
 
 
@@ -1451,6 +1539,8 @@ def oracle(c, r):
     failures may be matched against the case's known-finding labels, the others (free-parameter count, tag,
     folder name, refit) never are.  (oracle_msg gives the first message or None.)"""
     k = c["kind"]
+    if k == "history":
+        return history_oracle(c, r)
     if k == "fit":
         if "raised" in r:
             return [("identifier of a valid fit raised %s" % r["raised"], True)]
@@ -1564,6 +1654,18 @@ def coq_terms(c, r):
         hl = [] if raised else r["hash_list"]
         if all(ascii_ok(x) for x in hl):
             out.append("CWalk %s %s %s %s" % (str_table(fl), obj_term(r["abs"]), cbool(raised), cslist(hl)))
+    if k == "history" and all("hash_list" in o for o in r["steps"]):
+        fl = set()
+        for st in c["steps"]:
+            spec_floats({"pool": st["pool"], "model": st["model"], "search": c["search"]}, fl)
+        hls = [o["hash_list"] for o in r["steps"]]
+        if all(ascii_ok(x) for hl in hls for x in hl):
+            init = c.get("init", {})
+            t0 = init["paths_tag"] if "paths_tag" in init else init.get("ctor_tag")
+            out.append("CHistory %s %s %s %s %s" % (
+                str_table(fl), search_term(c["search"]), copt(t0, cstr),
+                clist([cpair(node_term(st["model"], st["pool"]), copt(st.get("tag"), cstr)) for st in c["steps"]]),
+                clist([cslist(hl) for hl in hls])))
     if k == "round":
         v = unhex(c["v"])
         if "raised" in r:
